@@ -174,3 +174,74 @@ func C14ParJS() {
 		zz.Assert(gb == want(usedB), "thread B sees the built-ins and its own arguments only")
 	}
 }
+
+// C08CopyScalars: the copy custom function gives back the JSON value the node stands for, also
+// when the node handed to it is a scalar itself (a number / boolean / null / string element of
+// an array streamed as its own record, or a scalar property): the value keeps its JSON type.
+func C08CopyScalars() {
+	kind := zz.NondetChoice("kind", 5)
+	asProp := zz.NondetBool("property")
+	// as the JSON stream reader builds them: a scalar array element is an anonymous property
+	// node with a value child, a property has its name
+	name := ""
+	if asProp {
+		name = "k"
+	}
+	n := idr.CreateJSONNode(idr.ElementNode, name, idr.JSONProp)
+	var want interface{}
+	switch kind {
+	case 0:
+		v := zz.NondetBytesN("s", 1)
+		zz.Assume(zz.ByteIn(v[0], "a1 "))
+		idr.AddChild(n, idr.CreateJSONNode(idr.TextNode, string(v), idr.JSONValueStr))
+		want = string(v)
+	case 1:
+		idr.AddChild(n, idr.CreateJSONNode(idr.TextNode, "42", idr.JSONValueNum))
+		want = float64(42)
+	case 2:
+		b := zz.NondetBool("b")
+		text := "false"
+		if b {
+			text = "true"
+		}
+		idr.AddChild(n, idr.CreateJSONNode(idr.TextNode, text, idr.JSONValueBool))
+		want = b
+	case 3:
+		idr.AddChild(n, idr.CreateJSONNode(idr.TextNode, "", idr.JSONValueNull))
+		want = nil
+	default:
+		// an object with one numeric member: {"m": 7}
+		if asProp {
+			n.FormatSpecific = idr.JSONProp | idr.JSONObj
+		} else {
+			n.FormatSpecific = idr.JSONObj // an anonymous object element of an array
+		}
+		m := idr.CreateJSONNode(idr.ElementNode, "m", idr.JSONProp)
+		idr.AddChild(n, m)
+		idr.AddChild(m, idr.CreateJSONNode(idr.TextNode, "7", idr.JSONValueNum))
+		want = map[string]interface{}{"m": float64(7)}
+	}
+	got, err := CopyFunc(nil, n)
+	zz.Assert(err == nil, "copy does not fail")
+	switch w := want.(type) {
+	case nil:
+		zz.Assert(got == nil, "null stays null")
+	case string:
+		g, ok := got.(string)
+		zz.Assert(ok && g == w, "string stays that string")
+	case float64:
+		g, ok := got.(float64)
+		zz.Assert(ok && g == w, "number stays a number")
+	case bool:
+		g, ok := got.(bool)
+		zz.Assert(ok && g == w, "boolean stays a boolean")
+	default:
+		g, ok := got.(map[string]interface{})
+		zz.Assert(ok && len(g) == 1, "object stays an object")
+		if ok {
+			f, isNum := g["m"].(float64)
+			zz.Assert(isNum && f == 7, "its member keeps its type")
+		}
+	}
+	zz.Cover("copied")
+}
